@@ -161,6 +161,18 @@ def run(chk: Check):
                     if np.all(np.diff(g) > 0):
                         grids[j] = g
             chk.count("digitize:look_alike_grids")
+        elif rng.random() < 0.25 and ncols >= 2:
+            # grids that agree element-wise to within the customary float tolerances (rtol 1e-5, atol 1e-8) without being equal:
+            # a tiny scale, or a relative shift of a few 1e-6
+            if rng.random() < 0.5:
+                u = 10.0 ** rng.randint(-12, -10); m = rng.randint(3, 15)
+                grids = [np.arange(m + 1) * (u * k) for k in rng.sample([1.0, 2.0, 3.0, 5.0, 7.0, 11.0], min(ncols, 6))]
+            else:
+                base = grids[0]
+                grids = [base] + [base * (1.0 + rng.choice([1, -1, 2]) * 3e-6) + rng.choice([0.0, 1e-9]) for _ in range(ncols - 1)]
+                grids = [np.sort(g) for g in grids]
+            ncols = len(grids)
+            chk.count("digitize:grids_close_but_not_equal")
         nrows = rng.choice([0, 1, 2, 3, 7, 20, 50])
         data = np.zeros((nrows, ncols))
         for j in range(ncols):
@@ -202,11 +214,15 @@ def run(chk: Check):
             grid_buffers[len(grid)] = grid
         # "acts element-wise on arrays": the same values as a 1-d, 2-d or 3-d array (and as a non-contiguous view) must give the same results
         shaped = vals.copy()
-        how = rng.choice(["1d", "1d", "2d", "3d", "strided"])
-        if how == "2d" and len(vals) >= 2 and len(vals) % 2 == 0:
+        how = rng.choice(["1d", "1d", "2d", "3d", "strided", "2d-f", "3d-f", "2d-f"])
+        if how in ("2d", "2d-f") and len(vals) >= 2 and len(vals) % 2 == 0:
             shaped = shaped.reshape(2, -1)
-        elif how == "3d" and len(vals) >= 4 and len(vals) % 4 == 0:
+        elif how in ("3d", "3d-f") and len(vals) >= 4 and len(vals) % 4 == 0:
             shaped = shaped.reshape(2, 2, -1)
+        if how.endswith("-f") and shaped.ndim > 1:
+            # the same logical array in column-major memory (what a transpose, a pandas column block or np.asfortranarray gives)
+            shaped = np.asfortranarray(shaped) if rng.random() < 0.5 else np.ascontiguousarray(shaped.T).T
+            chk.count("array_layout:column-major")
         elif how == "strided":
             shaped = np.repeat(shaped, 2)[::2]
         chk.count("array_shape:" + "x".join(map(str, shaped.shape)) if shaped.ndim > 1 else "array_shape:1d")
